@@ -339,6 +339,9 @@ package kcache
   theory actors
   requires [valid-s] (and (not (= {s} vnil)) (not (= {s.refilterch} vnil)) (not (= {s.lc} vnil)) (not {closed(s.refilterch)}))
   requires [filter-nonnil] (not (= {filter} vnil))
+  ghost requested : Bool := false
+  at send(refilterch) set requested := true
+  exit [error-iff-the-request-was-not-taken-because-of-shutdown] (= (= result vnil) requested)
 @*/
 
 /*@ func (*kcache.filterSubscription).run
@@ -1240,6 +1243,9 @@ package kcache
   requires (and (not (= {s} vnil)) (not (= {s.subscribech} vnil)) (not (= {s.lc} vnil)) (not {closed(s.subscribech)}))
   at recv(resultch) assume [the-reply-is-the-subscription-created-by-run-for-this-request] (and $ok (not (= $val vnil)))
   ensures (=> (= result1 vnil) (not (= result0 vnil)))
+  ghost requested : Bool := false
+  at send(subscribech) set requested := true
+  exit [error-iff-the-request-was-not-taken-because-of-shutdown] (= (= result1 vnil) requested)
 @*/
 /*@ func (*kcache.publisher).Close
   props C11
@@ -1354,6 +1360,9 @@ package kcache
   props C04 C12
   requires (and (not (= {w} vnil)) (not (= {w.resetch} vnil)) (not (= {w.lc} vnil)) (not {closed(w.resetch)}))
   at send(resetch) assert [sends-the-requested-version] (= $val {vsn})
+  ghost requested : Bool := false
+  at send(resetch) set requested := true
+  exit [error-iff-the-request-was-not-taken-because-of-shutdown] (= (= result vnil) requested)
 @*/
 /*@ func (*kcache._watcher).events
   props C04 C12
@@ -1386,6 +1395,9 @@ package kcache
   requires (and (not (= {c} vnil)) (not (= {c.syncch} vnil)) (not (= {c.lc} vnil)) (not {closed(c.syncch)}))
   requires [list-elements-nonnil] (listNonNil {list})
   at send(syncch) assert [one-request-with-the-callers-list] (= (|kcache.syncRequest.list| $val) {list})
+  ghost requested : Bool := false
+  at send(syncch) set requested := true
+  exit [error-iff-the-request-was-not-taken-because-of-shutdown] (= (= result1 vnil) requested)
 @*/
 /*@ func (*kcache._cache).update
   props C15 C12
@@ -1393,6 +1405,9 @@ package kcache
   requires (and (not (= {c} vnil)) (not (= {c.updatech} vnil)) (not (= {c.lc} vnil)) (not {closed(c.updatech)}))
   requires [event-carries-an-object] (and (not (= {evt} vnil)) (not (= (evt-res {evt}) vnil)))
   at send(updatech) assert [one-request-with-the-callers-event] (= (|kcache.updateRequest.evt| $val) {evt})
+  ghost requested : Bool := false
+  at send(updatech) set requested := true
+  exit [error-iff-the-request-was-not-taken-because-of-shutdown] (= (= result1 vnil) requested)
 @*/
 /*@ func (*kcache._cache).refilter
   props C15 C12
@@ -1400,16 +1415,25 @@ package kcache
   requires (and (not (= {c} vnil)) (not (= {c.refilterch} vnil)) (not (= {c.lc} vnil)) (not {closed(c.refilterch)}))
   requires [arguments] (and (listNonNil {list}) (not (= {filter} vnil)))
   at send(refilterch) assert [one-request-with-the-callers-arguments] (and (= (|kcache.refilterRequest.list| $val) {list}) (= (|kcache.refilterRequest.filter| $val) {filter}))
+  ghost requested : Bool := false
+  at send(refilterch) set requested := true
+  exit [error-iff-the-request-was-not-taken-because-of-shutdown] (= (= result1 vnil) requested)
 @*/
 /*@ func (*kcache._cache).List
   props C15 C12
   requires (and (not (= {c} vnil)) (not (= {c.listch} vnil)) (not (= {c.lc} vnil)) (not {closed(c.listch)}))
+  ghost requested : Bool := false
+  at send(listch) set requested := true
+  exit [error-iff-the-request-was-not-taken-because-of-shutdown] (= (= result1 vnil) requested)
 @*/
 /*@ func (*kcache._cache).Get
   props C15 C12
   theory cachereq
   requires (and (not (= {c} vnil)) (not (= {c.getch} vnil)) (not (= {c.lc} vnil)) (not {closed(c.getch)}))
   at send(getch) assert [asks-for-the-callers-key] (= (|kcache.getRequest.key| $val) (|mk!kcache.cacheKey| {ns} {name}))
+  ghost requested : Bool := false
+  at send(getch) set requested := true
+  exit [error-iff-the-request-was-not-taken-because-of-shutdown] (= (= result1 vnil) requested)
 @*/
 /*@ func (*kcache._cache).GetObject
   props C15
